@@ -63,3 +63,59 @@ Fixpoint bad_items (eol_len : nat) (lines : list string) (file : string) (items 
       if existsb (fun c => ref_okb eol_len lines file c (ri_file it) (ri_line it) (ri_off it) (ri_len it)) (ri_candidates it)
       then bad_items eol_len lines file r (i + 1)%Z else i :: bad_items eol_len lines file r (i + 1)%Z
   end.
+
+(* ------------------------------------------------------------------------------------------
+   The process-global source tables (USED_SOURCES, _SOURCE_PATHS, REFS / index_map) as a state
+   machine.  The three booleans say what the code does (recognised in source_ref.py /
+   compiler_frontend.py by the extractor): whether a compilation starts by resetting the reference
+   index, whether get_sources() keeps only the files the indexed references point into, whether
+   the text cache is validated by path.  Tied to the real functions by tools/props/c08.py. *)
+Record sref0 := { s_file : string; s_line : Z; s_off : Z; s_len : Z }.
+Definition sref0_eqb (a b : sref0) : bool :=
+  String.eqb (s_file a) (s_file b) && Z.eqb (s_line a) (s_line b) && Z.eqb (s_off a) (s_off b) && Z.eqb (s_len a) (s_len b).
+
+Record centry := { c_base : string; c_path : string; c_text : string }.
+Record stabs := { t_refs : list sref0; t_cache : list centry }.
+
+Inductive sop :=
+| OTouch (path base disk_text : string)      (* try_get_line_info on a frame of the file [path] whose text on disk is [disk_text] *)
+| OIndex (r : sref0)                         (* SourceRef.to_index() *)
+| OCompileStart.                             (* the first statements of nada_dsl_to_nada_mir *)
+
+Section Tabs.
+Variables (resets filtered by_path : bool).
+
+Fixpoint cache_find (b : string) (c : list centry) : option centry :=
+  match c with [] => None | e :: r => if String.eqb (c_base e) b then Some e else cache_find b r end.
+Fixpoint cache_put (e : centry) (c : list centry) : list centry :=
+  match c with
+  | [] => [e]
+  | x :: r => if String.eqb (c_base x) (c_base e) then e :: r else x :: cache_put e r
+  end.
+
+Definition touch (path base disk : string) (s : stabs) : stabs :=
+  match cache_find base (t_cache s) with
+  | Some e =>
+      if by_path && negb (String.eqb (c_path e) path)
+      then {| t_refs := t_refs s; t_cache := cache_put {| c_base := base; c_path := path; c_text := disk |} (t_cache s) |}
+      else s
+  | None => {| t_refs := t_refs s; t_cache := cache_put {| c_base := base; c_path := path; c_text := disk |} (t_cache s) |}
+  end.
+
+Definition index (r : sref0) (s : stabs) : stabs :=
+  if existsb (sref0_eqb r) (t_refs s) then s else {| t_refs := t_refs s ++ [r]; t_cache := t_cache s |}.
+
+Definition tstep (s : stabs) (o : sop) : stabs :=
+  match o with
+  | OTouch p b d => touch p b d s
+  | OIndex r => index r s
+  | OCompileStart => if resets then {| t_refs := []; t_cache := t_cache s |} else s
+  end.
+
+(* "source_refs" and "source_files" of the MIR returned at this point *)
+Definition emit_refs (s : stabs) : list sref0 := t_refs s.
+Definition emit_files (s : stabs) : list (string * string) :=
+  map (fun e => (c_base e, c_text e))
+      (if filtered then filter (fun e => existsb (fun r => String.eqb (s_file r) (c_base e)) (t_refs s)) (t_cache s)
+       else t_cache s).
+End Tabs.
